@@ -149,8 +149,8 @@ def _viol(rep, sig, what, case, invert, args, so, se, status, expected, got):
 
 
 def cli_leg(tier, seed):
-    total = 300 if tier == "quick" else 10000
-    per = 25 if tier == "quick" else 100
+    total = 1500 if tier == "quick" else 30000
+    per = 94 if tier == "quick" else 200
     jobs = [(common.mix(seed, "c01cli", i) & 0xFFFFFFFF, per, i) for i in range(total // per)]
     reps = common.par_map(_cli_batch, jobs)
     out = common.empty_report()
